@@ -37,6 +37,9 @@ type c11Patch struct {
 	Needs  func(name string) bool
 	Site   func(name string, r *rand.Rand) string // an instance of the code pattern, given the file's name for P
 	Action string
+	// Pre: declarations in front of the function with the sites (a place where the pattern matches but its replacement
+	// cannot stand, ahead of the sites that are rewritten)
+	Pre string
 }
 
 var c11Patches = []c11Patch{
@@ -76,6 +79,10 @@ var c11Patches = []c11Patch{
 		Text: "@@\nvar x expression\n@@\n+import \"" + c11Q + "\"\n\n-legacy(x)\n+bar.New(x)\n",
 		Plus: []impSpec{{"", c11Q}},
 		Site: func(n string, r *rand.Rand) string { return "legacy(" + fmt.Sprint(r.Intn(9)) + ")" }},
+	{Name: "add-for-selector", Action: "add",
+		Text: "@@\n@@\n+import \"" + c11Q + "\"\n\n-legacyLimit\n+bar.Limit\n",
+		Plus: []impSpec{{"", c11Q}}, Pre: "const legacyLimit = 3\n\n",
+		Site: func(n string, r *rand.Rand) string { return "legacyLimit" }},
 	{Name: "add-named", Action: "add-named",
 		Text: "@@\nvar x expression\n@@\n+import nb \"" + c11Q + "\"\n\n-legacy(x)\n+nb.New(x)\n",
 		Plus: []impSpec{{"nb", c11Q}},
@@ -334,7 +341,11 @@ func runC11(ctx *core.Ctx, idx int) *core.Result {
 				fmt.Fprintf(&body, "\t%s.Use()\n", n)
 			}
 		}
-		src := "package p\n\n" + renderImports(specs, r) + "\nfunc fnMain() {\n" + body.String() + "}\n" + shadow
+		pre := ""
+		if p.Pre != "" && r.Intn(2) == 0 {
+			pre = p.Pre
+		}
+		src := "package p\n\n" + renderImports(specs, r) + "\n" + pre + "func fnMain() {\n" + body.String() + "}\n" + shadow
 		srcs = append(srcs, src)
 		forms = append(forms, form)
 		usesCls = append(usesCls, useCls)
